@@ -230,7 +230,7 @@ RULE = ("(a) direct calls of kvarn_utils::encode_quoted_str / quoted_str_split /
         "repeated; after a closing request nothing is re-bound); every free file descriptor of the process is taken while a client connects "
         "(accept() fails with EMFILE), then released: that connection and the next ones are answered; clients that close the connection after "
         "sending `shutdown` / a closing command / `reload wait` (Manager::wait must still resolve: step 'finished'); requests on connections "
-        "accepted before a shutdown and completed after it; clients that wait 1.2 s (thorough: 6.5 and 11 s) before, in the middle of and after "
+        "accepted before a shutdown and completed after it; clients that wait 1.2 s and 6.5 s (thorough: also 11 s) before, in the middle of and after "
         "their request; 300 (thorough: 1000) connections pending at once. (h) kvarn's OWN reload plugin (component ctl.reload, in a child process "
         "whose arg0 is a script that counts how often it is started): reload, reload <junk>, reload wait (pending until the shutdown), counts. "
         "Replies are compared with the model by CLASS where the property does not fix the text (status word, close, echoed payload; kvarn's "
@@ -698,7 +698,9 @@ def conc_sessions(rng, quick):
     out += listener_sessions(rng, quick)
     # many connections pending at once
     for n in ((40, 150, 300) if quick else (40, 150, 400, 1000)):
-        out.append(conc(pending_script(rng, [rng.choice(("idle", "half", "unread", "slow")) for _ in range(n)], 5), "conc-many-pending"))
+        # (from 300 on only connections that stay open without a complete request: each of them occupies a task of the server)
+        kinds = ("idle", "half", "unread", "slow") if n < 300 else ("idle", "half")
+        out.append(conc(pending_script(rng, [rng.choice(kinds) for _ in range(n)], 5), "conc-many-pending"))
     # hundreds of sequential exchanges and reconnects (connections opened and dropped without a request in between)
     for n in ((300,) if quick else (300, 1000, 2500)):
         steps = []
@@ -756,7 +758,7 @@ def listener_sessions(rng, quick):
     out.append(conc([st(OP_OPEN, 1), st(OP_WRITE, 1, b"t-close"), st(OP_DROP, 1), st(OP_OPEN, 2), st(OP_WRITE, 2, b"t-count"), st(OP_DROP, 2),
                      st(OP_SLEEP, 200), st(OP_REQ, 3, b"ping refused?")], "conc-gone-client"))
     # slow clients: connected for a while before the request, a pause in the middle of it, a pause before reading
-    for ms in ((1200,) if quick else (1200, 6500, 11000)):
+    for ms in ((1200, 6500) if quick else (1200, 6500, 11000)):
         out.append(conc([st(OP_OPEN, 1), st(OP_OPEN, 2), st(OP_WRITE, 2, b"ping sl"), st(OP_SEND, 3, b"ping unread"), st(OP_SLEEP, ms),
                          st(OP_REQ, 4, b"ping meanwhile"), st(OP_WRITE, 1, b"ping slow one"), st(OP_FIN, 1), st(OP_AWAIT, 1),
                          st(OP_WRITE, 2, b"ow two"), st(OP_FIN, 2), st(OP_AWAIT, 2), st(OP_AWAIT, 3)], "conc-slow-client"))
@@ -862,6 +864,8 @@ def hosts_fixture(rng):
     names = [S("main host"), S('q"uo\\te'), S("it's"), S("ünï 日本"), S(" lead"), S("trail "), S("default"), S("Main Host"), S("a  b"), S("x")]
     rng.shuffle(names)
     names = names[:rng.randrange(1, 5)] + [rand_str(rng) or S("h")] * (rng.random() < 0.5)
+    if rng.random() < 0.35:
+        names += [S("main host"), S("Main Host")]       # two hosts whose names differ in case only
     names = list(dict.fromkeys(tuple(c for c in n if c) or S("h") for n in names))
     default = rng.randrange(-1, len(names))
     hosts = []
@@ -893,6 +897,10 @@ def mutate(rng, s):
     return tuple(s)
 
 
+def swapcase(s):
+    return tuple(c ^ 0x20 if 0x41 <= (c & ~0x20) <= 0x5a else c for c in s)
+
+
 def hosts_case(rng, nreq):
     hosts = hosts_fixture(rng)
     reqs, ops = [], []
@@ -900,7 +908,7 @@ def hosts_case(rng, nreq):
     for _ in range(nreq):
         h = rng.choice(hosts)
         r = rng.random()
-        host = h[1] if r < 0.55 else rng.choice(((), S("default"), S("nobody"), mutate(rng, h[1]), rand_str(rng)))
+        host = h[1] if r < 0.55 else rng.choice(((), S("default"), S("nobody"), mutate(rng, h[1]), swapcase(h[1]), rand_str(rng)))
         kind = rng.random()
         if kind < 0.4:
             key = rng.choice(h[2]) if h[2] and rng.random() < 0.7 else rng.choice((S("/a b"), rand_str(rng), mutate(rng, rng.choice(h[2])) if h[2] else ()))
@@ -918,7 +926,8 @@ def hosts_case(rng, nreq):
             op = ("response", host, resp, len(args) > 3)
         elif kind < 0.93:
             m = rng.choice(("all", "files", "responses"))
-            args = [S(m)] + ([rng.choice(names + [(), S("default"), S("nobody")])] if rng.random() < 0.7 else []) + ([S("x")] if rng.random() < 0.1 else [])
+            args = [S(m)] + ([rng.choice(names + names + [(), S("default"), S("nobody"), mutate(rng, rng.choice(names)), swapcase(rng.choice(names))])]
+                             if rng.random() < 0.7 else []) + ([S("x")] if rng.random() < 0.1 else [])
             op = (m, args[1] if len(args) > 1 else None, None, False)
         else:
             args = rng.choice(([S("file")], [S("response"), host], [], [S("nonsense"), host], [S("file"), h[2][0] if h[2] else (), host]))
